@@ -1774,7 +1774,7 @@ func (x *xlator) print() string {
 	var b strings.Builder
 	w := func(format string, a ...interface{}) { fmt.Fprintf(&b, format, a...) }
 	w("(* GENERATED on every check by `harness translate` from the Go SOURCE — do not edit.\n")
-	w("   source directory: %s   (module %s)\n\n", x.root, x.modpath)
+	w("   source: the tree the harness was built against (module %s)\n\n", x.modpath)
 	w("   Conventions (see harness/translate.go):\n")
 	w("   - Go integers are Z, booleans are bool.  A value of a Go integer type is meant to lie in\n")
 	w("     that type's range; `int`/`uint` are 64-bit.  +, -, *, <<, unary - and ^ and narrowing\n")
